@@ -52,8 +52,8 @@ func Run(ctx *core.Ctx) {
 	phases := []func() []*report{
 		h.ScopeModel,
 		h.Families,
-		func() []*report { return h.RandomExprs(ctx.Pick(4000, 40000)) },
-		func() []*report { return h.RandomProgs(ctx.Pick(1500, 20000)) },
+		func() []*report { return h.RandomExprs(ctx.Pick(4000, 60000)) },
+		func() []*report { return h.RandomProgs(ctx.Pick(1500, 30000)) },
 	}
 	out := make([][]*report, len(phases))
 	var wg sync.WaitGroup
@@ -403,7 +403,7 @@ func (h *Harness) Classify(c *Case) []string {
 		if !changed {
 			continue
 		}
-		nc := &Case{Family: c.Family, Prog: q, Style: c.Style}
+		nc := &Case{Family: c.Family, Prog: q, Style: c.Style, NoData: c.NoData}
 		h.run.Exec(nc)
 		h.ctx.AddEvals(1)
 		if h.verbose {
@@ -466,7 +466,7 @@ func (h *Harness) symptomOf(c *Case) string {
 				rev[len(ds)-1-i] = ds[i]
 			}
 			b["dirs"] = rev
-			nc := &Case{Family: c.Family, Prog: q, Style: c.Style}
+			nc := &Case{Family: c.Family, Prog: q, Style: c.Style, NoData: c.NoData}
 			h.run.Exec(nc)
 			h.ctx.AddEvals(1)
 			if nc.Skip == "" && !nc.Go.Err && canon(nc.Go.Out) == canon(c.JSObs.Out) {
